@@ -494,6 +494,7 @@ func run(c *vf.Ctx) {
 			return
 		}
 		statusDiffers := statusCompare(c, g, root, cs, true)
+		keyOf := map[string]string{} // divergent path -> key (parents sort before their children)
 		for _, d := range divs {
 			dir := "gogit-ignores-git-does-not"
 			if d.git {
@@ -509,7 +510,26 @@ func run(c *vf.Ctx) {
 			}
 			cause, gpat := drv.deciding(d.path, isDir[d.path], cs)
 			var key string
+			gsrc := srcContent(cs, d.gv.source)
+			trimmed := strings.TrimRight(gpat, " ")
+			ancKey := ""
+			if pc := strings.Split(d.path, "/"); len(pc) > 1 {
+				for i := 1; i < len(pc) && ancKey == ""; i++ {
+					ancKey = keyOf[strings.Join(pc[:i], "/")]
+				}
+			}
 			switch {
+			case ancKey != "":
+				key = ancKey // an ancestor directory already diverges: below it both sides just follow the parent
+			case d.gv.line == "1" && strings.HasPrefix(gsrc, "\xef\xbb\xbf"):
+				key = "utf8-bom-in-ignore-file:first-pattern-not-recognised"
+			case bracketSpansSlash(d.gv.pattern) || bracketSpansSlash(gpat):
+				key = "bracket-expression-spanning-slash"
+			case (cause == "exclude-matches-path" || cause == "negation-matches-path") && (strings.HasSuffix(trimmed, "/**") || strings.HasSuffix(trimmed, "/**/")) && isDir[d.path]:
+				key = "trailing-doublestar-matches-the-directory-itself"
+				if cause == "negation-matches-path" {
+					key += ":negated"
+				}
 			case cause == "negation-matches-ancestor-component" && d.git:
 				key = "negation-matching-ancestor-reincludes-descendant"
 			case cause == "exclude-matches-ancestor-component" && !d.git:
@@ -517,19 +537,67 @@ func run(c *vf.Ctx) {
 			default:
 				key = dir + ":" + kind + ":gogit[" + cause + ":" + patClass(gpat) + "]:git[" + pc + "]"
 			}
+			keyOf[d.path] = key
 			c.Fail(key, fmt.Sprintf("path %q (isDir=%v): git check-ignore says ignored=%v (%s:%s:%q), go-git says %v (%s %q); production Status differs from git status in this case: %v; ignore files %q",
 				d.path, isDir[d.path], d.git, d.gv.source, d.gv.line, d.gv.pattern, d.gogit, cause, gpat, statusDiffers, cs.Ign), cs)
 		}
 	})
 	c.Extra("git_invocations", gitx.Calls.Load())
 	c.Floor("cases compared with git check-ignore", c.Counter("git_check_ignore_calls"), c.N(380, 7600))
-	c.Floor("paths classified", c.Counter("paths_classified"), c.N(4000, 80000))
+	c.Floor("paths classified", c.Counter("paths_classified"), c.N(3000, 60000))
 	c.Floor("paths git reports as ignored", c.Counter("paths_ignored_by_git"), c.N(800, 16000))
 	c.Floor("distinct deciding pattern classes", c.SeenCount("deciding_pattern_classes"), c.N(40, 80))
 	c.Floor("status-level comparisons", c.Counter("status_compared"), c.N(30, 600))
 	c.Assume("reference is git 2.39.5: patterns with ** adjacent to a non-slash character are not generated (git < 2.52 mishandles them; the repository's own conformance test documents it)")
 	c.Assume("core.ignorecase is false and no global core.excludesfile exists (hermetic HOME)")
 	c.Assume("only paths that exist in the tree are queried, so isDir is what lstat says for both sides")
+}
+
+// srcContent returns the content of the ignore file git names as the source of a verdict.
+func srcContent(cs *igCase, source string) string {
+	switch {
+	case source == "":
+		return ""
+	case strings.HasSuffix(source, "info/exclude"):
+		return cs.Ign[".git/info/exclude"]
+	case source == ".gitignore":
+		return cs.Ign[""]
+	}
+	return cs.Ign[strings.TrimSuffix(source, "/.gitignore")]
+}
+
+// bracketSpansSlash: the pattern has a terminated bracket expression with a '/' inside
+// (git scans the expression as a whole, go-git first splits the pattern at every '/').
+func bracketSpansSlash(p string) bool {
+	for i := 0; i < len(p); i++ {
+		switch p[i] {
+		case '\\':
+			i++
+		case '[':
+			j := i + 1
+			if j < len(p) && (p[j] == '!' || p[j] == '^') {
+				j++
+			}
+			if j < len(p) && p[j] == ']' {
+				j++
+			}
+			slash := false
+			for ; j < len(p) && p[j] != ']'; j++ {
+				if p[j] == '/' {
+					slash = true
+				}
+				if p[j] == '[' && j+1 < len(p) && p[j+1] == ':' {
+					if k := strings.Index(p[j:], ":]"); k > 0 {
+						j += k + 1
+					}
+				}
+			}
+			if j < len(p) && slash {
+				return true
+			}
+		}
+	}
+	return false
 }
 
 func wipe(root string) error {
